@@ -2,12 +2,12 @@
 namespace MagpyVerif.Gen.Exits
 
 /-- the restore of the tiled paths sits in the `finally` of a try that starts right after the tiling -/
-def resetInFinally : Bool := false
+def resetInFinally : Bool := true
 
 /-- statements containing a call or a raise between the tiling and an unprotected restore -/
-def unprotectedSitesAfterTiling : Nat := 10
+def unprotectedSitesAfterTiling : Nat := 0
 
 /-- the restore slices the tiled path (`obj._position[:m0]`) instead of putting the saved arrays back -/
-def restoreBySlicing : Bool := true
+def restoreBySlicing : Bool := false
 
 end MagpyVerif.Gen.Exits
